@@ -1,6 +1,7 @@
 package rules
 
 import (
+	"go/types"
 	"go/token"
 	"strings"
 
@@ -569,4 +570,259 @@ func privateBytes(v ssa.Value, fn *ssa.Function, depth int) string {
 		return "is memory owned outside this call"
 	}
 	return "has an origin the rule cannot follow"
+}
+
+// R15FieldLoops — the loops of the handshake readers consume a counted field completely.
+func R15FieldLoops(c *Ctx) {
+	const rule = "R15-field-loops"
+	c.R.Rule(rule, "in the SOCKS handshake readers (package socks: SubNegotiationClient, ReadSocksHeader and their helpers) a loop that reads a counted field byte by byte is left only when the count is exhausted or a read failed: no exit of such a loop depends on the value of a byte just read — bytes of the field left unread would be parsed as the start of the next message", 1)
+	n := 0
+	for _, fn := range c.P.ModuleFuncs(func(p string) bool { return p == PkgSocks }) {
+		for _, l := range naturalLoops(fn) {
+			// bytes read inside the loop
+			var reads []ssa.Value
+			for b := range l.body {
+				for _, in := range b.Instrs {
+					call, ok := in.(*ssa.Call)
+					if !ok {
+						continue
+					}
+					name := CalleeName(call)
+					if strings.HasSuffix(name, ".ReadByte") || strings.HasSuffix(name, ".Read") || name == "io.ReadFull" || strings.HasSuffix(name, ".ReadFull") {
+						reads = append(reads, call)
+						for _, a := range call.Call.Args {
+							reads = append(reads, a) // the buffer filled by the read
+						}
+					}
+				}
+			}
+			if len(reads) == 0 {
+				continue
+			}
+			n++
+			construct := "loop reading a counted field"
+			bad := ""
+			for b := range l.body {
+				iff, ok := b.Instrs[len(b.Instrs)-1].(*ssa.If)
+				if !ok {
+					continue
+				}
+				leaves := false
+				for _, s := range b.Succs {
+					if !l.body[s] {
+						leaves = true
+					}
+				}
+				if !leaves {
+					continue
+				}
+				// an exit on the error result of the read is the failed-read exit
+				onData := derivesFieldwise(iff.Cond, func(v ssa.Value) bool {
+					ex, isEx := v.(*ssa.Extract)
+					if !isEx || isErrorType(ex.Type()) {
+						return false
+					}
+					for _, r := range reads {
+						if ex.Tuple == r {
+							return true
+						}
+					}
+					return false
+				})
+				if onData {
+					bad = c.pos(iff.Cond.Pos())
+				}
+			}
+			pos := c.pos(l.header.Instrs[0].Pos())
+			if bad == "" {
+				c.R.Ok(rule, FuncShort(fn), construct, pos, "every exit is the exhausted count or a failed read", true)
+			} else {
+				c.R.Bad(rule, FuncShort(fn), construct, bad, "the loop is left on the value of a byte it just read: the rest of the counted field stays in the stream and is parsed as the next message")
+			}
+		}
+	}
+	if n == 0 {
+		c.R.Anchor(rule, "a reading loop in package socks")
+	}
+}
+
+func isErrorType(t types.Type) bool { return t.String() == "error" }
+
+// derivesFieldwise: backward data dependence through arithmetic, conversions, phis and local variables, where a load
+// of a field of a local struct depends only on the stores to that same field.
+func derivesFieldwise(v ssa.Value, pred func(ssa.Value) bool) bool {
+	seen := map[ssa.Value]bool{}
+	var rec func(v ssa.Value) bool
+	storesTo := func(al *ssa.Alloc, field int) []ssa.Value {
+		var out []ssa.Value
+		for _, r := range *al.Referrers() {
+			switch x := r.(type) {
+			case *ssa.Store:
+				if x.Addr == ssa.Value(al) && field < 0 {
+					out = append(out, x.Val)
+				}
+			case *ssa.FieldAddr:
+				if x.Field != field {
+					continue
+				}
+				for _, r2 := range *x.Referrers() {
+					if st, ok := r2.(*ssa.Store); ok && st.Addr == ssa.Value(x) {
+						out = append(out, st.Val)
+					}
+				}
+			}
+		}
+		return out
+	}
+	rec = func(v ssa.Value) bool {
+		if v == nil || seen[v] {
+			return false
+		}
+		seen[v] = true
+		if pred(v) {
+			return true
+		}
+		switch x := v.(type) {
+		case *ssa.BinOp:
+			return rec(x.X) || rec(x.Y)
+		case *ssa.Convert:
+			return rec(x.X)
+		case *ssa.ChangeType:
+			return rec(x.X)
+		case *ssa.Phi:
+			for _, e := range x.Edges {
+				if rec(e) {
+					return true
+				}
+			}
+		case *ssa.Extract:
+			return false
+		case *ssa.Index:
+			return rec(x.X) || rec(x.Index)
+		case *ssa.Lookup:
+			return rec(x.X)
+		case *ssa.Slice:
+			return rec(x.X)
+		case *ssa.UnOp:
+			if x.Op != token.MUL {
+				return rec(x.X)
+			}
+			switch a := x.X.(type) {
+			case *ssa.Alloc:
+				for _, sv := range storesTo(a, -1) {
+					if rec(sv) {
+						return true
+					}
+				}
+			case *ssa.FieldAddr:
+				if al, ok := a.X.(*ssa.Alloc); ok {
+					for _, sv := range storesTo(al, a.Field) {
+						if rec(sv) {
+							return true
+						}
+					}
+				}
+			case *ssa.IndexAddr:
+				return rec(a.X)
+			}
+		case *ssa.Call:
+			if b, ok := x.Call.Value.(*ssa.Builtin); ok && (b.Name() == "len" || b.Name() == "append") {
+				for _, a := range x.Call.Args {
+					if rec(a) {
+						return true
+					}
+				}
+			}
+		}
+		return false
+	}
+	return rec(v)
+}
+
+// R15TypedNil — a connection field never holds a typed nil.
+func R15TypedNil(c *Ctx) {
+	const rule = "R15-typed-nil"
+	c.R.Rule(rule, "every store of a pointer into an interface-typed struct field (PortFwd.Conn and the like, whose `!= nil` test means \"open\") where the pointer is the first result of a call that also returns an error happens on the path where that error is nil (or the pointer was tested): a failed dial stored before the check leaves a non-nil interface holding a nil pointer, and the forward counts as open for ever", 0)
+	n := 0
+	for _, fn := range c.P.ModuleFuncs(NonYaotl) {
+		for _, b := range fn.Blocks {
+			for _, in := range b.Instrs {
+				st, ok := in.(*ssa.Store)
+				if !ok {
+					continue
+				}
+				fa, ok := st.Addr.(*ssa.FieldAddr)
+				if !ok {
+					continue
+				}
+				if _, isIface := st.Val.Type().Underlying().(*types.Interface); !isIface {
+					continue
+				}
+				mi, ok := st.Val.(*ssa.MakeInterface)
+				if !ok {
+					continue
+				}
+				if _, isPtr := mi.X.Type().Underlying().(*types.Pointer); !isPtr {
+					continue
+				}
+				// through a local variable
+				src := mi.X
+				if ld, ok := src.(*ssa.UnOp); ok && ld.Op == token.MUL {
+					if al, ok := ld.X.(*ssa.Alloc); ok {
+						var only ssa.Value
+						cnt := 0
+						for _, r := range *al.Referrers() {
+							if s2, ok := r.(*ssa.Store); ok && s2.Addr == ssa.Value(al) {
+								only = s2.Val
+								cnt++
+							}
+						}
+						if cnt == 1 {
+							src = only
+						}
+					}
+				}
+				ex, ok := src.(*ssa.Extract)
+				if !ok || ex.Index != 0 {
+					continue
+				}
+				call, ok := ex.Tuple.(*ssa.Call)
+				if !ok {
+					continue
+				}
+				res := call.Call.Signature().Results()
+				if res.Len() < 2 || !isErrorType(res.At(res.Len()-1).Type()) {
+					continue
+				}
+				n++
+				_, fname, _, _ := FieldOf(fa)
+				construct := "." + fname + " = <pointer result of " + shortCallee(CalleeName(call)) + ">"
+				okGuard := false
+				for _, f := range FactsAt(b) {
+					bo, isBin := f.Cond.(*ssa.BinOp)
+					if !isBin || !(isNilConst(bo.X) || isNilConst(bo.Y)) {
+						continue
+					}
+					v := bo.X
+					if isNilConst(bo.X) {
+						v = bo.Y
+					}
+					if e2, isEx := v.(*ssa.Extract); isEx && e2.Tuple == ssa.Value(call) {
+						if e2.Index == res.Len()-1 && ((bo.Op == token.EQL) == f.Truth) {
+							okGuard = true // err == nil
+						}
+						if e2.Index == 0 && ((bo.Op == token.NEQ) == f.Truth) {
+							okGuard = true // ptr != nil
+						}
+					}
+				}
+				if okGuard {
+					c.R.Ok(rule, FuncShort(fn), construct, c.pos(st.Pos()), "stored on the path where the call succeeded", true)
+				} else {
+					c.R.Bad(rule, FuncShort(fn), construct, c.pos(st.Pos()), "the pointer result is stored into the interface field before the call's error is tested: after a failure the field is a non-nil interface around a nil pointer, every `!= nil` test on it reports an open connection")
+				}
+			}
+		}
+	}
+	c.R.Extra["R15-typed-nil.sites"] = n
 }
